@@ -4,6 +4,7 @@ import dns.btreezone
 import dns.exception
 import dns.name
 import dns.rdata
+import dns.rdataclass
 import dns.rdataset
 import dns.rdatatype
 import dns.zone
@@ -27,7 +28,7 @@ ASSUMPTIONS = [
     "reference B6 (DESIGN.md Appendix B6): flags, delegation index and bounds as functions of content",
     "flags and the delegation index are read from the committed version object (version.nodes[*].flags, version.delegations)",
 ]
-REQUIRED = ["mon.histories_with_multi_operation_transactions", "mon.replacement_transactions", "mon.flags_from_content", "mon.delegation_index", "mon.iteration_order", "mon.bounds_query", "mon.histories_with_nested_cuts", "mon.histories_with_cname_at_cut"]
+REQUIRED = ["mon.big_delegation_index_drills", "mon.abandoned_transactions", "mon.held_reader_version_rechecked", "mon.histories_in_another_class", "mon.histories_with_other_name_spelling", "mon.histories_with_multi_operation_transactions", "mon.replacement_transactions", "mon.flags_from_content", "mon.delegation_index", "mon.iteration_order", "mon.bounds_query", "mon.histories_with_nested_cuts", "mon.histories_with_cname_at_cut"]
 BUDGET = {"quick": 40.0, "thorough": 420.0}
 
 ORIGIN = (b"example", b"")
@@ -77,7 +78,11 @@ class RefZone:
     def derived(self):
         okey = fold(ORIGIN)
         nsown = {n for n, ts in self.c.items() if 2 in ts and n != okey}
-        D = {n for n in nsown if not any(len(n) > len(a) and RN.is_subdomain(n, a) for a in nsown if a != n)}
+
+        def proper_ancestors(n):
+            return (n[i:] for i in range(1, len(n)))
+
+        D = {n for n in nsown if not any(a in nsown for a in proper_ancestors(n))}
         flags = {}
         for n in self.c:
             f = 0
@@ -85,14 +90,24 @@ class RefZone:
                 f |= 1
             if n in D:
                 f |= 2
-            if any(len(n) > len(d) and RN.is_subdomain(n, d) for d in D):
+            if any(a in D for a in proper_ancestors(n)):
                 f |= 4
             flags[n] = f
         return flags, D
 
-    def bounds(self, q):
-        flags, D = self.derived()
-        visible = sorted((n for n in self.c if not flags[n] & 4), key=RN.key)
+    def copy(self):
+        r = RefZone()
+        r.c = {k: set(v) for k, v in self.c.items()}
+        return r
+
+    def bounds(self, q, memo=None):
+        if memo is None:
+            memo = {}
+        if "derived" not in memo:
+            memo["derived"] = self.derived()
+            memo["visible"] = sorted((n for n in self.c if not memo["derived"][0][n] & 4), key=RN.key)
+        flags, D = memo["derived"]
+        visible = memo["visible"]
         kq = RN.key(q)
         le = [n for n in visible if RN.key(n) <= kq]
         gt = [n for n in visible if RN.key(n) > kq]
@@ -110,18 +125,32 @@ class RefZone:
         return left, right, ce, left == q, is_deleg
 
 
-def rd_for(rdtype, tag):
+def rd_for(rdtype, tag, rdclass="IN"):
     if isinstance(rdtype, tuple):
-        return dns.rdata.from_text("IN", "RRSIG", f"{dns.rdatatype.to_text(rdtype[1])} 8 2 300 20300101000000 20200101000000 {tag % 60000} example. q83v")
+        return dns.rdata.from_text(rdclass, "RRSIG", f"{dns.rdatatype.to_text(rdtype[1])} 8 2 300 20300101000000 20200101000000 {tag % 60000} example. q83v")
     t = dns.rdatatype.to_text(rdtype)
     text = {"A": f"10.0.0.{tag % 250 + 1}", "NS": f"ns{tag % 5}.elsewhere.", "TXT": f'"t{tag}"', "CNAME": f"target{tag % 3}.elsewhere.", "MX": f"{tag % 50} mx.elsewhere.",
             "DS": f"{tag % 60000} 8 2 " + "ab" * 32, "AAAA": f"2001:db8::{tag % 999 + 1:x}"}[t]
-    return dns.rdata.from_text("IN", t, text)
+    return dns.rdata.from_text(rdclass, t, text)
 
 
-def check_version(ctx, z, ref, relativize, case, tag, rng, step_kind):
+class _Held:
+    """an already open reader used in place of a new one"""
+
+    def __init__(self, txn):
+        self.txn = txn
+
+    def __enter__(self):
+        return self.txn
+
+    def __exit__(self, *a):
+        return False
+
+
+def check_version(ctx, z, ref, relativize, case, tag, rng, step_kind, held=None):
     origin = dns.name.Name(ORIGIN)
-    with z.reader() as txn:
+    memo = {}
+    with (_Held(held) if held is not None else z.reader()) as txn:
         v = txn.version
         flags, D = ref.derived()
         # content agreement (harness sanity + CNAME rule)
@@ -185,7 +214,7 @@ def check_version(ctx, z, ref, relativize, case, tag, rng, step_kind):
             except Exception as e:
                 ctx.violation(f"bounds-raised:{tag}:" + core.exc_sig(e), f"q={RN.to_text(q)}: {e!r}", case)
                 return False
-            left, right, ce, is_eq, is_deleg = ref.bounds(q)
+            left, right, ce, is_eq, is_deleg = ref.bounds(q, memo)
             gl = fold(b.left.derelativize(origin).labels)
             gr = fold(b.right.derelativize(origin).labels) if b.right is not None else None
             gce = fold(b.closest_encloser.derelativize(origin).labels)
@@ -211,6 +240,10 @@ def check_version(ctx, z, ref, relativize, case, tag, rng, step_kind):
     return True
 
 
+class _Abandon(Exception):
+    pass
+
+
 def ref_nsown(ref):
     okey = fold(ORIGIN)
     return {n for n, ts in ref.c.items() if 2 in ts and n != okey}
@@ -221,6 +254,29 @@ def history(ctx, rng):
     relativize = rng.random() < 0.5
     origin = dns.name.Name(ORIGIN)
     tag = "rel" if relativize else "abs"
+    # the zone's class: the derived state is defined the same way whatever it is (types that exist in class IN only are replaced)
+    rdclass = rng.choice(("IN", "IN", "IN", "CH", "HS"))
+    if rdclass != "IN":
+        tag += ":class-" + rdclass
+        ctx.count("mon.histories_in_another_class")
+    in_only = {1: 16, 28: 15}
+
+    def ty(t):
+        return in_only.get(t, t) if rdclass != "IN" else t
+
+    def spell(n):
+        """the owner as the caller writes it: mostly the zone's own form, sometimes the other one (absolute in a relativized zone,
+        relative in an absolute one); the library accepts both"""
+        nm = dns.name.Name(n)
+        native = nm.relativize(origin) if relativize else nm
+        if rng.random() < 0.25:
+            other = nm if relativize else nm.relativize(origin)
+            if other != native or other.is_absolute() != native.is_absolute():
+                spellings[0] += 1
+                return other
+        return native
+
+    spellings = [0]
     # name pool with structure: cuts, things beneath, siblings, ENTs
     pool = [ORIGIN]
     for _ in range(rng.randint(3, 7)):
@@ -236,7 +292,7 @@ def history(ctx, rng):
     # initial load from text in random record order
     recs = [(ORIGIN, 6), (ORIGIN, 2)]
     for _ in range(rng.randint(2, 10)):
-        recs.append((rng.choice(pool), rng.choice((1, 1, 2, 2, 2, 16, 15, 28, 43))))
+        recs.append((rng.choice(pool), ty(rng.choice((1, 1, 2, 2, 2, 16, 15, 28, 43)))))
     recs = [r for r in recs if not (r[1] == 43 and r[0] == ORIGIN)]
     body = recs[2:]
     rng.shuffle(body)
@@ -246,9 +302,9 @@ def history(ctx, rng):
     for n, t in order:
         tagn += 1
         if t == 6:
-            lines.append(f"{RN.to_text(n)} 300 IN SOA ns.example. h.example. 1 2 3 4 5")
+            lines.append(f"{RN.to_text(n)} 300 {rdclass} SOA ns.example. h.example. 1 2 3 4 5")
         else:
-            lines.append(f"{RN.to_text(n)} 300 IN {dns.rdatatype.to_text(t)} {rd_for(t, tagn).to_text()}")
+            lines.append(f"{RN.to_text(n)} 300 {rdclass} {dns.rdatatype.to_text(t)} {rd_for(t, tagn, rdclass).to_text()}")
         ref.add(fold(n), t)
     text = "\n".join(lines) + "\n"
     # the origin is either given to the loader or learned from a $ORIGIN directive while loading
@@ -259,37 +315,42 @@ def history(ctx, rng):
         ctx.count("mon.origin_learned_while_loading")
     steps.append(("load", text))
     try:
-        z = dns.zone.from_text(text, origin=None if learned else origin, relativize=relativize, zone_factory=dns.btreezone.Zone)
+        z = dns.zone.from_text(text, origin=None if learned else origin, rdclass=dns.rdataclass.from_text(rdclass), relativize=relativize, zone_factory=dns.btreezone.Zone)
     except Exception as e:
         ctx.violation(f"initial-load-raised:{tag}:" + core.exc_sig(e), f"{e!r}", case)
         return
     if not check_version(ctx, z, ref, relativize, case, tag, rng, "load"):
         return
     nested_seen = cname_seen = multi_seen = False
+    held = []  # (open reader, reference content at the time, step it was opened after)
     for step in range(rng.randint(3, 14)):
         n = rng.choice(pool)
-        ln = dns.name.Name(n)
-        if relativize:
-            ln = ln.relativize(origin)
+        ln = spell(n)
+        abandon = rng.random() < 0.15  # the transaction is left through an exception: nothing of it may show
+        ref_before = ref.copy() if abandon else None
+        if rng.random() < 0.2 and len(held) < 3:
+            held.append((z.reader(), ref.copy(), step))
         kind = rng.choice(("add_ns", "add_ns", "del_ns", "del_ns", "add_other", "add_other", "del_other", "del_node", "replace_ns", "cname", "add_below", "rrsig", "reload"))
         if n == ORIGIN and kind in ("del_node", "cname", "del_ns", "rrsig"):
             kind = "add_other"
         tagn += 1
+        if kind == "reload":
+            abandon = False
         try:
             if kind == "reload":
                 # a replacement transaction (what an AXFR does): nothing of the old version, its delegation index included, survives
                 ctx.count("mon.replacement_transactions")
                 ref = RefZone()
                 with z.writer(True) as txn:
-                    new = [(ORIGIN, 6), (ORIGIN, 2)] + [(rng.choice(pool), rng.choice((1, 2, 2, 16, 28))) for _ in range(rng.randint(1, 6))]
+                    new = [(ORIGIN, 6), (ORIGIN, 2)] + [(rng.choice(pool), ty(rng.choice((1, 2, 2, 16, 28)))) for _ in range(rng.randint(1, 6))]
                     rng.shuffle(new)
                     for nn, tt in new:
                         tagn += 1
-                        lnn = dns.name.Name(nn).relativize(origin) if relativize else dns.name.Name(nn)
+                        lnn = spell(nn)
                         if tt == 6:
-                            txn.add(lnn, 300, dns.rdata.from_text("IN", "SOA", "ns.example. h.example. 1 2 3 4 5"))
+                            txn.add(lnn, 300, dns.rdata.from_text(rdclass, "SOA", "ns.example. h.example. 1 2 3 4 5"))
                         else:
-                            txn.add(lnn, 300, rd_for(tt, tagn))
+                            txn.add(lnn, 300, rd_for(tt, tagn, rdclass))
                         ref.add(fold(nn), tt)
             with z.writer() as txn:
                 # one to three operations in the same transaction, often at the same name or right next to it: the flags are
@@ -298,7 +359,7 @@ def history(ctx, rng):
                     if opi > 0:
                         if rng.random() < 0.5:
                             n = rng.choice(pool)
-                            ln = dns.name.Name(n).relativize(origin) if relativize else dns.name.Name(n)
+                        ln = spell(n)
                         kind = rng.choice(("add_ns", "del_ns", "del_ns", "add_other", "del_other", "del_node", "replace_ns", "cname", "add_below", "rrsig"))
                         if n == ORIGIN and kind in ("del_node", "cname", "del_ns", "rrsig"):
                             kind = "add_other"
@@ -311,23 +372,23 @@ def history(ctx, rng):
                         cov = rng.choice((5, 5, 1))
                         if cov == 5 and 2 in ref.c.get(fold(n), ()):
                             cname_seen = True
-                        txn.add(ln, 300, rd_for((46, cov), tagn))
+                        txn.add(ln, 300, rd_for((46, cov), tagn, rdclass))
                         ref.add(fold(n), (46, cov))
                     elif kind == "add_ns":
-                        txn.add(ln, 300, rd_for(2, tagn))
+                        txn.add(ln, 300, rd_for(2, tagn, rdclass))
                         ref.add(fold(n), 2)
                     elif kind == "replace_ns":
-                        txn.replace(ln, 300, rd_for(2, tagn))
+                        txn.replace(ln, 300, rd_for(2, tagn, rdclass))
                         ref.add(fold(n), 2)
                     elif kind == "del_ns":
                         txn.delete(ln, "NS")
                         ref.delete(fold(n), 2)
                     elif kind == "add_other":
-                        t = rng.choice((1, 16, 15, 28, 43 if n != ORIGIN else 1))
-                        txn.add(ln, 300, rd_for(t, tagn))
+                        t = ty(rng.choice((1, 16, 15, 28, 43 if n != ORIGIN else 1)))
+                        txn.add(ln, 300, rd_for(t, tagn, rdclass))
                         ref.add(fold(n), t)
                     elif kind == "del_other":
-                        t = rng.choice((1, 16, 15, 28))
+                        t = ty(rng.choice((1, 16, 15, 28)))
                         txn.delete(ln, t)
                         ref.delete(fold(n), t)
                     elif kind == "del_node":
@@ -336,19 +397,23 @@ def history(ctx, rng):
                     elif kind == "cname":
                         if 2 in ref.c.get(fold(n), ()):
                             cname_seen = True
-                        txn.add(ln, 300, rd_for(5, tagn))
+                        txn.add(ln, 300, rd_for(5, tagn, rdclass))
                         ref.add(fold(n), 5)
                     elif kind == "add_below":
                         below = (rng.choice(LABELS),) + n
                         if RN.fits(below):
-                            bl = dns.name.Name(below)
-                            if relativize:
-                                bl = bl.relativize(origin)
-                            t = rng.choice((1, 2, 16))
-                            txn.add(bl, 300, rd_for(t, tagn))
+                            bl = spell(below)
+                            t = ty(rng.choice((1, 2, 16)))
+                            txn.add(bl, 300, rd_for(t, tagn, rdclass))
                             ref.add(fold(below), t)
                             if below not in pool:
                                 pool.append(below)
+                if abandon:
+                    raise _Abandon()
+        except _Abandon:
+            ref = ref_before
+            kind = "abandoned:" + kind
+            ctx.count("mon.abandoned_transactions")
         except Exception as e:
             ctx.violation(f"transaction-raised:{tag}:{kind}:" + core.exc_sig(e), f"{e!r}", case)
             return
@@ -356,8 +421,17 @@ def history(ctx, rng):
         ns = ref_nsown(ref)
         if any(any(len(a) > len(b) and RN.is_subdomain(a, b) for b in ns if b != a) for a in ns):
             nested_seen = True
-        if not check_version(ctx, z, ref, relativize, case, tag, rng, kind):
+        if not check_version(ctx, z, ref, relativize, case, tag, rng, kind.split(":")[0]):
             return
+        # versions still held by a reader are what they were when the reader was opened
+        for r, rref, opened in held:
+            ctx.count("mon.held_reader_version_rechecked")
+            if not check_version(ctx, z, rref, relativize, case, tag + ":version-held-by-a-reader", rng, "held", held=r):
+                return
+    for r, _, _ in held:
+        r.rollback()
+    if spellings[0]:
+        ctx.count("mon.histories_with_other_name_spelling")
     if multi_seen:
         ctx.count("mon.histories_with_multi_operation_transactions")
     if nested_seen:
@@ -366,12 +440,94 @@ def history(ctx, rng):
         ctx.count("mon.histories_with_cname_at_cut")
 
 
+def big_index_drill(ctx, rng):
+    """a delegation-heavy zone (several hundred cuts, so that the delegation index is a tree of several nodes, some of them
+    full): cuts are added by transactions that commit or are abandoned while readers hold earlier versions; every version --
+    the live one and the held ones -- is compared with the reference of ITS content"""
+    ctx.count("evaluations")
+    ctx.count("mon.big_delegation_index_drills")
+    relativize = rng.random() < 0.5
+    origin = dns.name.Name(ORIGIN)
+    tag = ("rel" if relativize else "abs") + ":delegation-heavy"
+    ncuts = rng.choice((380, 380, 400, 520, 640))
+    in_order = rng.random() < 0.6
+    case = {"kind": "big-index", "relativize": relativize, "cuts": ncuts, "sorted_load": in_order, "steps": []}
+    ref = RefZone()
+    names = [(b"c%04d" % (i * 4),) + ORIGIN for i in range(ncuts)]
+    if not in_order:
+        rng.shuffle(names)
+
+    def lib(n):
+        nm = dns.name.Name(n)
+        return nm.relativize(origin) if relativize else nm
+
+    try:
+        z = dns.btreezone.Zone(origin, relativize=relativize)
+        batches = rng.choice((1, 1, 3))
+        with z.writer() as txn:
+            txn.add(lib(ORIGIN), 300, dns.rdata.from_text("IN", "SOA", "ns.example. h.example. 1 2 3 4 5"))
+            txn.add(lib(ORIGIN), 300, rd_for(2, 1))
+            ref.add(fold(ORIGIN), 6)
+            ref.add(fold(ORIGIN), 2)
+        per = (len(names) + batches - 1) // batches
+        for b in range(batches):
+            with z.writer() as txn:
+                for n in names[b * per:(b + 1) * per]:
+                    txn.add(lib(n), 300, rd_for(2, 7))
+                    ref.add(fold(n), 2)
+        if not check_version(ctx, z, ref, relativize, case, tag, rng, "load"):
+            return
+        held = []
+        tagn = 10
+        for step in range(rng.randint(3, 6)):
+            if rng.random() < 0.6 and len(held) < 2:
+                held.append((z.reader(), ref.copy()))
+            abandon = rng.random() < 0.5
+            before = ref.copy()
+            kind = rng.choice(("add-cuts", "add-cuts", "remove-cuts", "mixed"))
+            case["steps"].append((kind, abandon))
+            try:
+                with z.writer() as txn:
+                    for _ in range(rng.randint(1, 6)):
+                        tagn += 1
+                        if kind == "add-cuts" or (kind == "mixed" and rng.random() < 0.5):
+                            n = (b"c%04d" % rng.randrange(ncuts * 4 + 4),) + ORIGIN
+                            if rng.random() < 0.2:
+                                n = (b"c%04dx" % (4 * rng.randrange(ncuts)),) + ORIGIN
+                            txn.add(lib(n), 300, rd_for(2, tagn))
+                            ref.add(fold(n), 2)
+                        else:
+                            cur = [k for k in ref.c if k != fold(ORIGIN)]
+                            if cur:
+                                n = rng.choice(cur)
+                                txn.delete(lib(n), "NS")
+                                ref.delete(n, 2)
+                    if abandon:
+                        raise _Abandon()
+            except _Abandon:
+                ref = before
+                ctx.count("mon.abandoned_transactions")
+            ctx.seen(("big-index", relativize, in_order, kind, abandon, len(held)))
+            if not check_version(ctx, z, ref, relativize, case, tag + (":after-abandoned-transaction" if abandon else ""), rng, "big"):
+                return
+            for r, rref in held:
+                ctx.count("mon.held_reader_version_rechecked")
+                if not check_version(ctx, z, rref, relativize, case, tag + ":version-held-by-a-reader", rng, "held", held=r):
+                    return
+        for r, _ in held:
+            r.rollback()
+    except Exception as e:
+        ctx.violation(f"transaction-raised:{tag}:" + core.exc_sig(e), f"{e!r}", case)
+
+
 def run(spec, ctx):
     rng = ctx.rng
     for i in range(spec["n"]):
         if ctx.expired(1.0):
             break
         history(ctx, rng)
+        if i % 80 == 0:
+            big_index_drill(ctx, rng)
     if ctx.shard == 0:
         ctx.sample({"origin": "example.", "labels": [l.decode("latin1") for l in LABELS], "step_kinds": ["add_ns", "del_ns", "replace_ns", "add_other", "del_other", "del_node", "cname", "add_below"]})
 
